@@ -16,6 +16,7 @@ A case is a JSON-able dict:
     msleep  {task index: seconds}   sleep inside the task function (how the master is made slow)
     boom    list of task indices whose task function raises ValueError
     logs    bool            every task emits one log record
+    kill    list            [{i, sig, delay, pid, where, task}]: task i kills its own process with signal sig (delay 0: at once)
     boomkind str            the exception kind the raising tasks use (ValueError, StopIteration, SystemExit0, KeyboardInterrupt, …)
     does    str             what the task function does besides computing: nested (parallel map inside, inner=[ncpu, n]) | thread | mpchild
     rsize   int             every result carries a payload of that many bytes (results larger than the 64 KiB pipe buffer)
@@ -77,12 +78,24 @@ def nestval(does, inner, i):
     return 0
 
 
-def task_func(i, k=0, sleep=0.0, boom=False, log=False, rsize=0, bk='ValueError', does=None, inner=(1, 0), rss=None, tl=None):
+def task_func(i, k=0, sleep=0.0, boom=False, log=False, rsize=0, bk='ValueError', does=None, inner=(1, 0), kill=None, rss=None, tl=None):
     """The mapped function: returns (task number, a pure function of the arguments, os pid, a draw[, payload]).
     `does`: what the function does besides computing — 'nested': it runs a parallel map itself, 'thread': it computes in a
     thread of its own, 'mpchild': it starts a multiprocessing child."""
     if sleep:
         time.sleep(sleep)
+    if kill:
+        # death by signal (OOM killer, batch system): now, or `delay` seconds later from a timer thread while the process
+        # is held in a later window (after rqueue.put / after the log sentinel) by the hook plan
+        import signal as _sig      # noqa
+        import threading
+        if kill[1] <= 0:
+            os.kill(os.getpid(), int(kill[0]))
+            time.sleep(5)
+        else:
+            t = threading.Timer(kill[1], os.kill, (os.getpid(), int(kill[0])))
+            t.daemon = True
+            t.start()
     if boom:
         _raise(bk, i)
     if log:
@@ -209,6 +222,9 @@ def build_args_list(case, msleep, boom):
         else:
             d = {'k': 3 * i, 'sleep': msleep.get(i, 0.0), 'boom': i in boom, 'log': bool(case.get('logs')),
                  'rsize': int(case.get('rsize') or 0)}
+            for kl in case.get('kill') or []:
+                if kl['i'] == i:
+                    d['kill'] = (kl['sig'], kl['delay'])
             if case.get('boomkind'):
                 d['bk'] = case['boomkind']
             if case.get('does'):
@@ -267,6 +283,9 @@ def _child_main(case, wfd):
     """runs in the forked child; never returns"""
     try:
         os.setsid()
+        # default dispositions (an ignored SIGTERM would be inherited from whoever started the check)
+        for _s in (signal.SIGTERM, signal.SIGINT, signal.SIGHUP):
+            signal.signal(_s, signal.SIG_DFL)
         os.environ['ICECUBE_SKYLLH_VERIF'] = '1'
         os.environ['ICECUBE_SKYLLH_VERIF_PLAN'] = json.dumps(case.get('plan') or [])
         devnull = os.open(os.devnull, os.O_WRONLY)
